@@ -167,6 +167,12 @@ def run_instance(cid, inst_index, tier, seed=0, repo_src=None, native_trials=0, 
             res["obligations"].append(rec)
             if r.status != "proved":
                 failed.append((oid, ob, r, pi))
+    bounded_clauses = set()
+    for ctx in ctxs:
+        bounded_clauses |= ctx.memo.get("bounded_clauses", set())
+    res["bounded_clauses"] = sorted(f"{cid}#{b}[{label}]" for b in bounded_clauses)
+    if bounded_clauses and not native_trials:
+        native_trials = 12  # bounded stand-in clauses are always exercised
     res["trusted"] = sorted(trusted)
     res["covered"] = sorted(f"{m}:{l}" for m, l in world.covered)
     if nobl == 0 and not res["checker_errors"]:
